@@ -245,7 +245,26 @@ func (g *gen) genTarget() *vdev {
 				gp = "VPN-group-1"
 			}
 			g.groupPolicy(b, gp, true)
-			b.add("tunnel-group "+tg+" general-attributes", "default-group-policy "+gp)
+			if r.Chance(25) {
+				// group-policy chosen by an LDAP attribute map; server and map are transferred manually
+				srv, lm := fmt.Sprintf("LDAP%d", k), fmt.Sprintf("LDAPMAP%d", k)
+				b.add("aaa-server " + srv + " protocol ldap")
+				b.add("aaa-server "+srv+" host X", "ldap-attribute-map "+lm)
+				subs := []string{"map-name memberOf Group-Policy"}
+				for j, n := 0, 1+r.Intn(3); j < n; j++ {
+					lg := fmt.Sprintf("VPN-ldap-%d-%d", k, j)
+					g.groupPolicy(b, lg, true)
+					dn := fmt.Sprintf(`"CN=g-m%d,OU=VPN,DC=example,DC=com"`, j)
+					if r.Chance(30) {
+						dn = fmt.Sprintf(`"CN=g-m%d,OU=local group,DC=example,DC=com"`, j)
+					}
+					subs = append(subs, "map-value memberOf "+dn+" "+lg)
+				}
+				b.add("ldap attribute-map "+lm, subs...)
+				b.add("tunnel-group "+tg+" general-attributes", "default-group-policy "+gp, "authentication-server-group "+srv)
+			} else {
+				b.add("tunnel-group "+tg+" general-attributes", "default-group-policy "+gp)
+			}
 			if r.Chance(70) {
 				b.add("tunnel-group "+tg+" ipsec-attributes", "peer-id-validate req", "trust-point TP"+fmt.Sprint(r.Intn(3)))
 			}
@@ -330,7 +349,7 @@ func (d *vdev) rename(from ref, to string) {
 
 func fixedName(r ref) bool {
 	switch r.kind {
-	case "cmap", "dynmap", "user":
+	case "cmap", "dynmap", "user", "aaa", "ldapmap":
 		return true
 	case "tg":
 		return isIPName(r.name) || defaultTG[r.name] != ""
@@ -525,8 +544,53 @@ func (g *gen) genDevice(b *vdev) (*vdev, []string) {
 			a.rename(o, "old-"+o.name)
 		}
 	}
+	// the device shows an aaa-server with interface, address and the administrator's settings
+	for _, x := range a.Blocks {
+		w := x.words()
+		if k, _ := headKind(w); k == "aaa" && contains(w, "host") {
+			x.Head = "aaa-server " + w[1] + " (inside) host 10.2.8.16"
+			x.Subs = append([]string{"ldap-base-dn DC=example,DC=com", "ldap-scope subtree"}, x.Subs...)
+		}
+	}
 	nmut := r.Intn(7)
 	for i := 0; i < nmut; i++ {
+		if lms := a.kindObjects("ldapmap"); len(lms) > 0 && r.Chance(15) {
+			lm := a.blocksOf(Pick(r, lms))[0]
+			switch r.Intn(3) {
+			case 0:
+				for j, s := range lm.Subs {
+					if strings.HasPrefix(s, "map-value ") {
+						lm.Subs = append(lm.Subs[:j:j], lm.Subs[j+1:]...)
+						say("ldap-map-value-missing")
+						break
+					}
+				}
+			case 1:
+				n := "VPN-ldap-old-DRC-0"
+				if !a.exists(ref{"gp", n}) {
+					a.add("group-policy " + n + " internal")
+					a.add("group-policy "+n+" attributes", "vpn-idle-timeout 7")
+					lm.Subs = append(lm.Subs, `map-value memberOf "CN=g-old,OU=VPN,DC=example,DC=com" `+n)
+					say("ldap-map-value-extra")
+				}
+			case 2:
+				if r.Chance(40) {
+					for _, o := range append(a.kindObjects("aaa"), a.kindObjects("ldapmap")...) {
+						a.removeAll(o)
+					}
+					for _, x := range a.Blocks {
+						for j := 0; j < len(x.Subs); j++ {
+							if strings.HasPrefix(x.Subs[j], "authentication-server-group ") {
+								x.Subs = append(x.Subs[:j:j], x.Subs[j+1:]...)
+								j--
+							}
+						}
+					}
+					say("aaa-server-missing-on-device")
+				}
+			}
+			continue
+		}
 		cmaps := a.kindObjects("cmap")
 		switch k := r.Intn(100); {
 		case k < 10 && len(cmaps) > 0:
@@ -879,8 +943,14 @@ func (g *gen) genDevice(b *vdev) (*vdev, []string) {
 				case 3:
 					for _, x := range a.Blocks {
 						if kk, _ := headKind(x.words()); kk == "webvpn" {
-							a.removeBlock(x)
-							say("webvpn-missing")
+							if len(x.Subs) > 1 && r.Chance(60) {
+								j := r.Intn(len(x.Subs))
+								x.Subs = append(x.Subs[:j:j], x.Subs[j+1:]...)
+								say("certificate-group-map-rule-missing")
+							} else {
+								a.removeBlock(x)
+								say("webvpn-missing")
+							}
 							break
 						}
 					}
